@@ -28,6 +28,32 @@ constexpr int kMaxJoin = 2;
 enum ItemKind { I_NEST_START, I_NEST_DISCARD, I_NEST_CONNECT_DISCARD, I_DETACHED, I_FUTURE_AWAIT, I_FUTURE_DROP, I_FUTURE_CANCEL, I_ATTACH_START, I_KINDS };
 const char* kItemName[] = {"nest+start", "nest+discard", "nest+connect+discard", "spawn_detached", "future+await", "future+drop", "future+await+cancel", "attach+start"};
 
+// a counting allocator handed to spawn_detached / spawn_future: everything it serves must come back to it
+struct AllocCount { long allocs = 0, deallocs = 0, bytes = 0; };
+AllocCount g_ac;
+template <class T>
+struct cnt_alloc {
+  using value_type = T;
+  cnt_alloc() = default;
+  template <class U>
+  cnt_alloc(const cnt_alloc<U>&) noexcept {}
+  T* allocate(size_t n) {
+    T* p = (T*)::operator new(n * sizeof(T));
+    usim::np_scope np;
+    g_ac.allocs++;
+    g_ac.bytes += (long)(n * sizeof(T));
+    return p;
+  }
+  void deallocate(T* p, size_t n) noexcept {
+    { usim::np_scope np; g_ac.deallocs++; g_ac.bytes -= (long)(n * sizeof(T)); }
+    ::operator delete(p);
+  }
+  template <class U>
+  bool operator==(const cnt_alloc<U>&) const noexcept { return true; }
+  template <class U>
+  bool operator!=(const cnt_alloc<U>&) const noexcept { return false; }
+};
+
 struct SItem {
   int kind = 0;
   int worker = 0;
@@ -115,12 +141,13 @@ void worker(World* w, Scope* scope, int me) {
         break;
       }
       case I_DETACHED: {
-        unifex::spawn_detached(unifex::then(gate_sender{g}, [](long) noexcept {}), *scope);
+        if (it.pre & 1) unifex::spawn_detached(unifex::then(gate_sender{g}, [](long) noexcept {}), *scope, cnt_alloc<std::byte>{});
+        else unifex::spawn_detached(unifex::then(gate_sender{g}, [](long) noexcept {}), *scope);
         { usim::np_scope np; it.issue_end = seq(); }
         break;
       }
       case I_FUTURE_AWAIT: case I_FUTURE_CANCEL: {
-        auto fut = unifex::spawn_future(gate_sender{g}, *scope);
+        auto fut = (it.pre & 1) ? unifex::spawn_future(gate_sender{g}, *scope, cnt_alloc<std::byte>{}) : unifex::spawn_future(gate_sender{g}, *scope);
         { usim::np_scope np; it.issue_end = seq(); }
         yields(it.mid);
         started_op<S, decltype(fut)> op;
@@ -132,7 +159,7 @@ void worker(World* w, Scope* scope, int me) {
       }
       case I_FUTURE_DROP: {
         {
-          auto fut = unifex::spawn_future(gate_sender{g}, *scope);
+          auto fut = (it.pre & 1) ? unifex::spawn_future(gate_sender{g}, *scope, cnt_alloc<std::byte>{}) : unifex::spawn_future(gate_sender{g}, *scope);
           { usim::np_scope np; it.issue_end = seq(); }
           yields(it.mid);
           { usim::np_scope np; it.future_dropped = true; it.drop_seq = seq(); }
@@ -374,6 +401,13 @@ void body_scope(const char* name) {
     }
   }
   scope.destroy();
+  {
+    usim::np_scope np;
+    KIT_CHECK(g_ac.allocs == g_ac.deallocs && g_ac.bytes == 0, "c12.allocator-pairing", "the allocator passed to spawn_detached/spawn_future served %ld allocations and received %ld deallocations (%ld bytes outstanding)",
+              g_ac.allocs, g_ac.deallocs, g_ac.bytes);
+    if (g_ac.allocs) usim_probe("spawn allocator pairing checked");
+    g_ac = AllocCount{};
+  }
   { usim::np_scope np; delete w; }
 }
 
